@@ -484,5 +484,38 @@ def replay(acc, w):
             t = pot.displacement(vel, list(s), *extra, float.fromhex(x["budget"]))
             if isinstance(t, complex) or t != t or t < -1e-9:
                 acc.violation(w["key"], f"replayed: {t!r}", x)
+            elif w["key"].endswith(("inversion-identity", "infinite-although-path-accumulates-budget",
+                                    "finite-although-path-never-accumulates-budget")):
+                mk = {"inverse_power": lambda: en.InversePower(p["prefactor"] * x["charges"][0] * x["charges"][1], p["power"]),
+                      "lennard_jones": lambda: en.LennardJones(p["prefactor"], p["sigma"]),
+                      "displaced_even_power": lambda: en.DisplacedEvenPower(p["prefactor"], p["r0"], p["power"])}[x["kind"]]()
+                budget = float.fromhex(x["budget"])
+                xx = t * x["speed"]
+                e_inf, sc_inf = en.uphill(s, x["d"], mk, INF)
+                if xx == INF:
+                    if e_inf > budget + 1e-9 * (budget + sc_inf):
+                        acc.violation(w["key"], f"replayed: inf although the path accumulates {e_inf!r}", x)
+                else:
+                    e_d, sc = en.uphill(s, x["d"], mk, max(xx, 0.0))
+                    if abs(e_d - budget) > 1e-9 * (budget + sc):
+                        acc.violation(w["key"], f"replayed: E_up({xx!r}) = {e_d!r}, budget {budget!r}", x)
         except Exception as e:
             acc.violation(w["key"], f"replayed: {type(e).__name__}: {e}", x)
+    elif x.get("kind") == "c_bound":
+        from vf.jf import init_setting
+        init_setting(3, [x["L"]] * 3, cubic=True)
+        from jellyfysh.potential.inverse_power_coulomb_bounding_potential import InversePowerCoulombBoundingPotential
+        pot = InversePowerCoulombBoundingPotential(prefactor=x["prefactor"])
+        s = [float.fromhex(v) for v in x["s"]]
+        vel = [0.0] * 3
+        vel[x["d"]] = x["speed"]
+        budget = float.fromhex(x["budget"])
+        t = pot.displacement(vel, list(s), x["charges"][0], x["charges"][1], budget)
+        q = x["prefactor"] * x["charges"][0] * x["charges"][1]
+        if t != t or t < 0:
+            acc.violation(w["key"], f"replayed: {t!r}", x)
+        else:
+            e_d, sc = en.periodic_coulomb_uphill(q, s, x["d"], x["L"], t * x["speed"])
+            per = en.periodic_coulomb_per_lap(q, s, x["d"], x["L"])
+            if e_d < INF and abs(e_d - budget) > 1e-9 * (budget + sc * (1 + (budget / per if per < INF else 0))):
+                acc.violation(w["key"], f"replayed: E_up = {e_d!r}, budget {budget!r}", x)
